@@ -98,6 +98,9 @@ const (
 	BCleanupRejectCleanupPanic
 	BCleanupPanicCleanupSkip  // the other order: the skip is in flight when the older cleanup panics
 	BCleanupErrorfCleanupSkip // the newer cleanup skips (ends abnormally), the older one then fails non-fatally
+	BCleanupPanicThenSkip     // registers a cleanup that panics, then the body skips
+	BCleanupPanicThenReject   // registers a cleanup that panics, then a draw of the body is rejected
+	BCleanupNilMapThenSkip    // registers a cleanup that ends in a run-time error, then the body skips
 	numBeh
 )
 
@@ -109,7 +112,8 @@ var behNames = [...]string{"pass", "Skip", "Errorf", "Errorf;Skip", "Fail", "Fat
 	"Cleanup(Errorf);Skip", "Errorf;rejected-draw", "Cleanup(Skip)", "Error()", `Errorf("")`, "FailNow@D", "div-by-zero@A", "div-by-zero@B",
 	"Cleanup(Skip);Fatalf", "Cleanup(Skip);panic", "Cleanup(rejected-draw);Fatalf", "Cleanup(rejected-draw);panic", "Errorf;Fatalf@A",
 	"rcp:two-panicking-cleanups-above-a-plain-one", "rcp:Fatalf-cleanup-and-Skip-cleanup-above-plain-ones", "rcp:three-abnormal-cleanups-interleaved", "rcp:nil-cleanup-between-real-ones", "rcp:Custom-drawn-inside-a-cleanup",
-	"Cleanup(Skip)+Cleanup(panic)", "Cleanup(Skip)+Cleanup(Fatalf)", "Cleanup(rejected-draw)+Cleanup(panic)", "Cleanup(panic)+Cleanup(Skip)", "Cleanup(Errorf)+Cleanup(Skip)"}
+	"Cleanup(Skip)+Cleanup(panic)", "Cleanup(Skip)+Cleanup(Fatalf)", "Cleanup(rejected-draw)+Cleanup(panic)", "Cleanup(panic)+Cleanup(Skip)", "Cleanup(Errorf)+Cleanup(Skip)",
+	"Cleanup(panic);Skip", "Cleanup(panic);rejected-draw", "Cleanup(nil-map-write);Skip"}
 
 func (b Beh) String() string { return behNames[b] }
 
@@ -319,6 +323,15 @@ func Perform(t *rapid.T, b Beh, msg string) {
 	case BCleanupRejectCleanupPanic:
 		t.Cleanup(func() { rejectingGen.Draw(t, "never") })
 		t.Cleanup(func() { sitePanic("boom in cleanup " + msg) })
+	case BCleanupPanicThenSkip:
+		t.Cleanup(func() { sitePanic("boom in cleanup " + msg) })
+		t.Skip("skip with a panicking cleanup " + msg)
+	case BCleanupPanicThenReject:
+		t.Cleanup(func() { sitePanic("boom in cleanup " + msg) })
+		rejectingGen.Draw(t, "never")
+	case BCleanupNilMapThenSkip:
+		t.Cleanup(func() { var m map[string]int; m[msg] = 1 })
+		t.SkipNow()
 	case BCleanupErrorfCleanupSkip:
 		t.Cleanup(func() { t.Errorf("nonfatal in cleanup: %s", msg) })
 		t.Cleanup(func() { t.Skip("skip from the newer cleanup " + msg) })
@@ -457,6 +470,7 @@ type Config struct {
 	Verbose    bool
 	Name       string
 	Short      bool // -short: a fifth of the checks (and of the state-machine steps)
+	KeepFlags  bool // do not touch the flags: this Check runs with whatever the previous one in the process left behind
 }
 
 func (c Config) String() string {
@@ -503,8 +517,10 @@ func setFlags(cfg Config) {
 // RunCheck runs rapid.Check(fakeTB, prop) for the program under the environment.
 // The virtual clock advances 1 ms per property invocation and is otherwise frozen.
 func RunCheck(p *LazyProgram, env *Env, cfg Config) *RunLog {
-	defer flag.Set("test.short", "false")
-	setFlags(cfg)
+	if !cfg.KeepFlags {
+		defer flag.Set("test.short", "false")
+		setFlags(cfg)
+	}
 	name := cfg.Name
 	if name == "" {
 		name = "TestLazy"
